@@ -149,9 +149,27 @@ func ruleFastReset(c *Check, p *Program, rule string) {
 			reset = ci
 		}
 	}
-	isTable := func(in ssa.Instruction) bool {
+	var isTable func(in ssa.Instruction) bool
+	touches := map[*ssa.Function]int{} // 0 unknown, 1 no, 2 yes
+	isTable = func(in ssa.Instruction) bool {
 		if ci, ok := in.(ssa.CallInstruction); ok && (calleeIs(ci, pkgBlock, "Compressor.get") || calleeIs(ci, pkgBlock, "Compressor.put")) {
 			return true
+		}
+		// a helper of the compressor (other than reset) that works on the table
+		if ci, ok := in.(ssa.CallInstruction); ok && !calleeIs(ci, pkgBlock, "Compressor.reset") {
+			if g := staticCallee(ci); g != nil && inModule(g) && g.Pkg == fn.Pkg && recvTypeName(g) == "Compressor" && len(g.Blocks) > 0 {
+				if touches[g] == 0 {
+					touches[g] = 1
+					allInstrs(g, func(j ssa.Instruction) {
+						if isTable(j) {
+							touches[g] = 2
+						}
+					})
+				}
+				if touches[g] == 2 {
+					return true
+				}
+			}
 		}
 		var addr ssa.Value
 		switch x := in.(type) {
@@ -174,6 +192,16 @@ func ruleFastReset(c *Check, p *Program, rule string) {
 			nTable++
 		}
 	})
+	for g, t := range touches {
+		if t == 2 {
+			c.Funcs[fname(g)] = true
+			allInstrs(g, func(in ssa.Instruction) {
+				if isTable(in) {
+					nTable++
+				}
+			})
+		}
+	}
 	c.Sites += nTable
 	if reset == nil {
 		// inline reset: a store of the zero value into Compressor.inUse
@@ -243,18 +271,22 @@ func ruleHCReset(c *Check, p *Program, rule string) {
 	}
 	zeroed := map[string]ssa.Instruction{}
 	var flagStore ssa.Instruction
-	allInstrs(fn, func(in ssa.Instruction) {
-		st, ok := in.(*ssa.Store)
-		if !ok {
-			return
-		}
-		switch lf := lastField(st.Addr); lf {
-		case "CompressorHC.hashTable", "CompressorHC.chainTable":
-			zeroed[lf] = in
-		case "CompressorHC.needsReset":
-			flagStore = in
-		}
-	})
+	// the preparation may have been moved into a helper that only CompressBlock calls
+	pieces := splitFns(fn)
+	for _, piece := range pieces {
+		allInstrs(piece, func(in ssa.Instruction) {
+			st, ok := in.(*ssa.Store)
+			if !ok {
+				return
+			}
+			switch lf := lastField(st.Addr); lf {
+			case "CompressorHC.hashTable", "CompressorHC.chainTable":
+				zeroed[lf] = in
+			case "CompressorHC.needsReset":
+				flagStore = in
+			}
+		})
+	}
 	for _, t := range []string{"CompressorHC.hashTable", "CompressorHC.chainTable"} {
 		in := zeroed[t]
 		if in == nil {
@@ -298,7 +330,17 @@ func ruleHCReset(c *Check, p *Program, rule string) {
 			}
 			return false
 		}
-		bypass, _ := reachAvoid(fn, nil, func(in ssa.Instruction) bool { return isTable(in) || isReturn(in) }, func(in ssa.Instruction) bool { return in == flagStore })
+		isFlagStore := func(in ssa.Instruction) bool { return in == flagStore }
+		if h := flagStore.Parent(); h != fn {
+			// in a helper: the helper stores on all of its paths, and its call stands for the store
+			c.Funcs[fname(h)] = true
+			all, _ := mustOnAllPaths(p, h, func(in ssa.Instruction) bool { return in == flagStore }, false, 0)
+			isFlagStore = func(in ssa.Instruction) bool {
+				ci, ok := in.(ssa.CallInstruction)
+				return ok && all && staticCallee(ci) == h
+			}
+		}
+		bypass, _ := reachAvoid(fn, nil, func(in ssa.Instruction) bool { return isTable(in) || isReturn(in) }, isFlagStore)
 		c.Cond(constTrue && !bypass, rule, "CompressorHC.CompressBlock#flag-set", p.InstrPos(flagStore), "needsReset is set to the constant true on every path through the call, before any table access (so that the next call - by anyone drawing this compressor from the pool - starts from zeroed tables)", "needsReset = true dominates all table accesses and returns", fmt.Sprintf("stored value is the constant true: %v; a table access or return is reachable without the store: %v", constTrue, bypass))
 		// zeroing precedes the flag store and all table accesses
 		for t, in := range zeroed {
@@ -314,7 +356,13 @@ func ruleHCReset(c *Check, p *Program, rule string) {
 	// nobody else writes the flag
 	var others []string
 	for _, f := range moduleFuncs(p, pkgBlock, pkgRoot, pkgStream) {
-		if f == fn {
+		own := false
+		for _, piece := range pieces {
+			if piece == f {
+				own = true
+			}
+		}
+		if own {
 			continue
 		}
 		allInstrs(f, func(in ssa.Instruction) {
@@ -418,7 +466,15 @@ func ruleSingleSinkWriter(c *Check, p *Program, rule string) {
 						parent = parent.Parent()
 					}
 					notes = append(notes, "goroutine started in "+shortFn(f)+" writes blocks")
-					if shortFn(parent) != "Blocks.initW" {
+					inInitW := false
+					if iw := p.Func("internal/lz4stream", "Blocks.initW"); iw != nil {
+						for _, piece := range splitFns(iw) {
+							if piece == parent {
+								inInitW = true
+							}
+						}
+					}
+					if !inInitW {
 						ok = false
 						notes = append(notes, "(a goroutine other than the ordering goroutine of Blocks.initW reaches FrameDataBlock.Write: "+shortFn(t)+")")
 					}
@@ -673,6 +729,14 @@ func checkC18(c *Check) {
 			rf = ci
 		}
 	}
+	if rf == nil {
+		// the read may sit in a helper of Read
+		for _, ci := range callsInDeep(fn) {
+			if calleeIs(ci, "io", "ReadFull") {
+				rf = ci
+			}
+		}
+	}
 	var closeW ssa.CallInstruction
 	for _, ci := range callsIn(fn) {
 		if calleeIs(ci, pkgStream, "Frame.CloseW") {
@@ -724,24 +788,14 @@ func checkC18(c *Check) {
 			eqs = append(eqs, edge{b, ix})
 		}
 	}
-	seen := map[*ssa.BasicBlock]bool{fn.Blocks[0]: true}
-	stack := []*ssa.BasicBlock{fn.Blocks[0]}
-	for len(stack) > 0 {
-		b := stack[len(stack)-1]
-		stack = stack[:len(stack)-1]
-		for k, s := range b.Succs {
-			skip := false
-			for _, e := range eqs {
-				if e.b == b && e.ix == k {
-					skip = true
-				}
-			}
-			if !skip && !seen[s] {
-				seen[s] = true
-				stack = append(stack, s)
+	seen := reachWithFacts(fn, func(b *ssa.BasicBlock, k int) bool {
+		for _, e := range eqs {
+			if e.b == b && e.ix == k {
+				return true
 			}
 		}
-	}
+		return false
+	})
 	c.Cond(len(eqs) >= 2 && !seen[closeW.Block()], "R18.1", "CompressingReader.Read#eof-by-identity", p.InstrPos(closeW), "the trailer is written only when the source's error is identical (==) to io.EOF or io.ErrUnexpectedEOF; errors merely wrapping them are real failures", fmt.Sprintf("%d identity comparisons; CloseW unreachable once their equal edges are deleted", len(eqs)), fmt.Sprintf("identity comparisons with io.EOF / io.ErrUnexpectedEOF found: %d; CloseW reachable without them: %v (e.g. errors.Is would also match wrapped errors and swallow the failure)", len(eqs), seen[closeW.Block()]))
 	ruleErrorsNotAbsorbed(c, p, "R18.1", []*ssa.Function{fn, p.Func("", "CompressingReader.init")}, map[string]string{})
 	// R18.2: after CloseW succeeds, state = Flushing on every path; CloseW only reachable in state Reading
@@ -1038,4 +1092,128 @@ func fieldValueSets(fn *ssa.Function, field string, width uint) map[*ssa.BasicBl
 		}
 	}
 	return in
+}
+
+
+// reachWithFacts: the blocks reachable from the entry when the edges selected by
+// skip are deleted. The walk remembers, per path, the outcome of the conditions it
+// has passed (a condition value, or "this error variable is nil") and follows only
+// the consistent edge when the same question is asked again: `done := err != nil`
+// tested twice, or an error variable (an SSA value or a cell nobody has stored to
+// in between) compared with nil after a switch has already decided it.
+func reachWithFacts(fn *ssa.Function, skip func(b *ssa.BasicBlock, k int) bool) map[*ssa.BasicBlock]bool {
+	type factKey struct {
+		v    ssa.Value // condition value, or the error value / cell
+		kind byte      // 'c' condition, 'n' nil-ness of value, 'm' nil-ness of the content of a cell
+	}
+	nilKey := func(v ssa.Value) (factKey, bool) {
+		if ld, ok := v.(*ssa.UnOp); ok && ld.Op == token.MUL {
+			switch ld.X.(type) {
+			case *ssa.Alloc, *ssa.FreeVar:
+				return factKey{ld.X, 'm'}, true
+			}
+		}
+		if _, isK := v.(*ssa.Const); isK {
+			return factKey{}, false
+		}
+		return factKey{v, 'n'}, true
+	}
+	// cond -> (key, polarity): cond true means key is `polarity`
+	var keyOf func(cond ssa.Value) (factKey, bool, bool)
+	keyOf = func(cond ssa.Value) (factKey, bool, bool) {
+		switch x := cond.(type) {
+		case *ssa.UnOp:
+			if x.Op == token.NOT {
+				k, pol, ok := keyOf(x.X)
+				return k, !pol, ok
+			}
+		case *ssa.BinOp:
+			if x.Op == token.EQL || x.Op == token.NEQ {
+				for _, pr := range [][2]ssa.Value{{x.X, x.Y}, {x.Y, x.X}} {
+					if isNilConst(pr[1]) {
+						if k, ok := nilKey(pr[0]); ok {
+							return k, x.Op == token.EQL, true
+						}
+					}
+				}
+			}
+		}
+		return factKey{cond, 'c'}, true, true
+	}
+	type state struct {
+		b     *ssa.BasicBlock
+		facts string
+	}
+	seenState := map[state]bool{}
+	reached := map[*ssa.BasicBlock]bool{}
+	encode := func(f map[factKey]bool) string {
+		var parts []string
+		for k, v := range f {
+			parts = append(parts, fmt.Sprintf("%p/%c=%v", k.v, k.kind, v))
+		}
+		sort.Strings(parts)
+		return strings.Join(parts, ";")
+	}
+	var walk func(b *ssa.BasicBlock, facts map[factKey]bool, steps *int)
+	walk = func(b *ssa.BasicBlock, facts map[factKey]bool, steps *int) {
+		*steps++
+		if *steps > 20000 {
+			// give up the precision: everything reachable in the plain graph counts
+			for _, bb := range fn.Blocks {
+				reached[bb] = true
+			}
+			return
+		}
+		st := state{b, encode(facts)}
+		if seenState[st] {
+			return
+		}
+		seenState[st] = true
+		reached[b] = true
+		cur := map[factKey]bool{}
+		for k, v := range facts {
+			cur[k] = v
+		}
+		for _, in := range b.Instrs {
+			if s, ok := in.(*ssa.Store); ok {
+				delete(cur, factKey{s.Addr, 'm'})
+			}
+			// a value computed again (next loop iteration) is a new question
+			if v, ok := in.(ssa.Value); ok {
+				delete(cur, factKey{v, 'c'})
+				delete(cur, factKey{v, 'n'})
+			}
+		}
+		ifi, isIf := b.Instrs[len(b.Instrs)-1].(*ssa.If)
+		for k, s := range b.Succs {
+			if skip(b, k) {
+				continue
+			}
+			next := cur
+			if isIf && len(b.Succs) == 2 {
+				cond := ifi.Cond
+				// a boolean phi cannot be keyed by path here: leave it undecided
+				if _, isPhi := cond.(*ssa.Phi); !isPhi {
+					key, pol, ok := keyOf(cond)
+					if ok {
+						want := pol == (k == 0)
+						if known, has := cur[key]; has && known != want {
+							continue
+						}
+						next = map[factKey]bool{}
+						for kk, vv := range cur {
+							next[kk] = vv
+						}
+						next[key] = want
+					}
+				}
+			}
+			walk(s, next, steps)
+		}
+	}
+	steps := 0
+	if len(fn.Blocks) > 0 {
+		walk(fn.Blocks[0], map[factKey]bool{}, &steps)
+	}
+	return reached
 }
